@@ -196,6 +196,7 @@ func Run(r *mc.Run) {
 		bases = append(bases, gen.ADep{gen.ARel{sh[i]}})
 	}
 	bases = append(bases, gen.DepFields(gen.DepRepresentatives(), r.Pick(2, 3))...)
+
 	r.Scenario("generated-fields-fixpoint", map[string]interface{}{"base_fields": len(bases), "spacing_deviation_bound": 1}, len(bases), func(i int, st *mc.Stats) bool {
 		segs := bases[i].Segments()
 		execs, div := mc.Explore(1, st, func(x *mc.X) {
@@ -231,6 +232,30 @@ func Run(r *mc.Run) {
 		st.States += execs
 		if div != "" {
 			st.Violate(mc.V("generated-fields-fixpoint", "harness-replay-divergence", In{bases[i].Render()}, "deterministic", div))
+		}
+		return true
+	})
+
+	// fields larger than the products reach: many relations / alternatives / architectures / groups / stages
+	lg := gen.LargeDeps()
+	r.Scenario("large-fields-fixpoint", map[string]interface{}{"fields": len(lg), "renderings": "default spacing; one relation per folded line"}, len(lg), func(i int, st *mc.Stats) bool {
+		for _, folded := range []bool{false, true} {
+			text := lg[i].Render()
+			if folded {
+				text = strings.ReplaceAll(text, ", ", ",\n ")
+			}
+			st.Evals++
+			st.Traces++
+			st.Nontrivial++
+			vs, _ := checkFix("large-fields-fixpoint", In{text})
+			if len(vs) == 0 {
+				st.Class("accepted-fixpoint")
+			} else {
+				st.Class("accepted-broken")
+			}
+			for _, v := range vs {
+				st.Violate(v)
+			}
 		}
 		return true
 	})
